@@ -59,6 +59,7 @@ type FuncContract struct {
 	Used     bool
 	Assumes  []Clause // postconditions assumed at call sites but NOT checked against the body (listed as assumptions)
 	ForwardFrames bool // "hint forward-frames": frame axioms of array updates also trigger on reads of the old array
+	GhostLocals  []Param // ghostlocal name type: function-private ghost variables (zero at entry), updated by `at call ... ghost`
 	GhostResults []Param // ghost results (name, ghost type): extra, specification-only results of the function
 	GhostDefs    []AtItem // ghostdef name[q] := expr : definition of a ghost result at exit
 	GhostSets []AtItem // ghost updates at function exit:  ghostset target := expr
@@ -146,7 +147,7 @@ type MonitorInv struct {
 	E     Expr
 }
 
-var clauseKw = map[string]bool{"ghostresult": true, "ghostdef": true, "assumes": true, "hint": true, "ghostset": true, "preserves": true, "calls": true, "requires": true, "ensures": true, "modifies": true, "assigns": true,
+var clauseKw = map[string]bool{"ghostlocal": true, "ghostresult": true, "ghostdef": true, "assumes": true, "hint": true, "ghostset": true, "preserves": true, "calls": true, "requires": true, "ensures": true, "modifies": true, "assigns": true,
 	"decreases": true, "wrapping": true, "loop": true, "at": true, "pure": true, "opaque": true,
 	"use": true, "by": true}
 var itemKw = map[string]bool{"spec": true, "lemma": true, "func": true, "interface": true, "trusted": true,
@@ -534,6 +535,15 @@ func parseContractFile(path, pkgPath string, requirePrefix bool) (*ContractFile,
 				}
 			} else {
 				return nil, fail("clause outside item")
+			}
+		case "ghostlocal":
+			if curF == nil {
+				return nil, fail("ghostlocal outside func")
+			}
+			if k := strings.IndexAny(rest, " \t"); k < 0 {
+				return nil, fail("bad ghostlocal")
+			} else {
+				curF.GhostLocals = append(curF.GhostLocals, Param{Name: rest[:k], Type: strings.TrimSpace(rest[k+1:])})
 			}
 		case "ghostresult":
 			if curF == nil {
